@@ -100,4 +100,41 @@ def repeat_call(ctx, kind, what, fn, args, kwargs, first):
             ctx.count("repeat_call_outcome_differs")
     except Exception:  # noqa: BLE001
         pass
-    return ok2, r2
+    if not ok2 or not _damage(r2):
+        return ok2, r2
+    # the caller edits what it was handed; a third call must not see those edits (results shared between calls)
+    ok3, r3 = ctx.call(fn, *args, **kwargs)
+    ctx.count("repeat_calls_after_editing_a_result")
+    return ok3, r3
+
+
+def _circuits_in(r, out, depth=0):
+    if hasattr(r, "graph") and hasattr(r, "blackboxes"):
+        out.append(r)
+    elif isinstance(r, dict) and depth < 2:
+        for v in r.values():
+            _circuits_in(v, out, depth + 1)
+    elif isinstance(r, (list, tuple)) and depth < 2:
+        for v in r:
+            _circuits_in(v, out, depth + 1)
+    return out
+
+
+def _damage(r):
+    """Edit every Circuit inside a returned value in place (new output node, one gate retyped, one edge removed,
+    registry emptied).  Returns the number of circuits edited."""
+    cs = _circuits_in(r, [])
+    for c in cs:
+        g = c.graph
+        for n in list(g.nodes):
+            if g.nodes[n].get("type") in ("and", "or", "xor", "nand", "nor", "xnor"):
+                g.nodes[n]["type"] = "nor" if g.nodes[n]["type"] != "nor" else "and"
+                break
+        for e in list(g.edges)[:1]:
+            g.remove_edge(*e)
+        g.add_node("zz_edited_by_caller", type="buf", output=True)
+        try:
+            c.blackboxes.clear()
+        except Exception:  # noqa: BLE001
+            pass
+    return len(cs)
